@@ -622,4 +622,217 @@ theorem assoc_isSome_of_mem {A : List (Nat × Nat)} {i : Nat} (h : i ∈ A.map (
       · exact absurd h.symm hp
       · exact ih h
 
+
+/-! ### assembling `uniquify_point_set` -/
+
+/-- the slots and the scatter computed by the model for the chain rule -/
+def chainState (t : Rat) (pts : List Pt) : List Item × List (Nat × Nat) :=
+  combine t 0 (normClusters .chain t
+    (isortBy (fun x y => decide (norm2 x.2 ≤ norm2 y.2)) (enumFrom 0 pts)))
+
+/-- slot numbers ordered by the index of their point (`argsort(new_2_old)`) -/
+def orderingOf (S : List Item) : List (Nat × Item) :=
+  isortBy (fun a b => decide (a.2.1 ≤ b.2.1)) (enumFrom 0 S)
+
+theorem uniquify_chain_eq (t : Rat) (pts : List Pt) :
+    uniquify .chain t pts =
+      { pts := (orderingOf (chainState t pts).1).map (·.2.2),
+        new2old := (orderingOf (chainState t pts).1).map (·.2.1),
+        old2new := (List.range pts.length).map (fun i =>
+          ((orderingOf (chainState t pts).1).map (·.1)).idxOf ((assoc (chainState t pts).2 i).getD 0)) } := rfl
+
+theorem chainState_core {t : Rat} {pts : List Pt} {cl : Nat → Nat} (hsep : Separated t pts cl) :
+    (∀ s ∈ (chainState t pts).1, ValidItem pts s) ∧
+    (∀ (k k' : Nat) (s s' : Item), (chainState t pts).1[k]? = some s →
+        (chainState t pts).1[k']? = some s' → cl s.1 = cl s'.1 → k = k') ∧
+    (∀ i, i < pts.length → ∃ (kk : Nat) (s : Item), assoc (chainState t pts).2 i = some kk ∧
+        (chainState t pts).1[kk]? = some s ∧ cl s.1 = cl i ∧ s.1 ≤ i) := by
+  unfold chainState
+  generalize hsorted : isortBy (fun x y : Item => decide (norm2 x.2 ≤ norm2 y.2)) (enumFrom 0 pts) = sorted
+  have hmem : ∀ x : Item, x ∈ sorted ↔ ValidItem pts x := by
+    intro x
+    rw [← hsorted, mem_isortBy]
+    obtain ⟨i, p⟩ := x
+    rw [mem_enumFrom]
+    simp [ValidItem]
+  have hsortedP : sorted.Pairwise (fun x y => norm2 x.2 ≤ norm2 y.2) := by
+    rw [← hsorted]
+    refine List.Pairwise.imp (fun h => of_decide_eq_true h)
+      (isortBy_pairwise _ ?_ ?_ _)
+    · intro a b
+      rcases le_total (norm2 a.2) (norm2 b.2) with h | h
+      · left; exact decide_eq_true h
+      · right; exact decide_eq_true h
+    · intro a b c h1 h2
+      exact decide_eq_true (le_trans (of_decide_eq_true h1) (of_decide_eq_true h2))
+  have hfl := normClusters_flatten .chain t sorted
+  have hfar := normClusters_chain_far t sorted hsortedP
+  generalize normClusters .chain t sorted = groups at hfl hfar
+  have hvalid : ∀ g ∈ groups, ∀ y ∈ g, ValidItem pts y := by
+    intro g hg y hy
+    exact (hmem y).mp (by rw [← hfl]; exact List.mem_flatten.mpr ⟨g, hg, hy⟩)
+  have hpw : groups.Pairwise (fun g g' => ∀ x ∈ g, ∀ y ∈ g', cl x.1 ≠ cl y.1) := by
+    refine List.Pairwise.imp_of_mem ?_ hfar
+    intro g g' hg hg' hF x hx y hy heq
+    have hd := (hsep x.1 y.1 x.2 y.2 (hvalid g hg x hx) (hvalid g' hg' y hy)).mp heq
+    have := hF x hx y hy
+    rw [not_far_of_close hd] at this
+    cases this
+  have ginv := combine_inv hsep groups 0 hvalid hpw
+  refine ⟨?_, ginv.inj, ?_⟩
+  · intro s hs
+    obtain ⟨g, hg, hsg⟩ := ginv.sub s hs
+    exact hvalid g hg s hsg
+  · intro i hi
+    have hv : ValidItem pts (i, pts[i]) := by simp [ValidItem]
+    have hin : i ∈ (combine t 0 groups).2.map (·.1) := by
+      rw [ginv.keys, hfl]
+      exact List.mem_map.mpr ⟨(i, pts[i]), (hmem _).mpr hv, rfl⟩
+    obtain ⟨kk, hkk⟩ := assoc_isSome_of_mem hin
+    obtain ⟨_, s, hs, h1, h2⟩ := ginv.asg i kk (assoc_some_mem hkk)
+    exact ⟨kk, s, hkk, by simpa using hs, h1, h2⟩
+
+/-- every slot holds the first-occurring member of its cluster -/
+theorem slot_is_first {t : Rat} {pts : List Pt} {cl : Nat → Nat} (hsep : Separated t pts cl)
+    {s : Item} (hs : s ∈ (chainState t pts).1) :
+    s.1 < pts.length ∧ ∀ j, j < pts.length → cl j = cl s.1 → s.1 ≤ j := by
+  obtain ⟨hv, hinj, hasg⟩ := chainState_core hsep
+  refine ⟨(List.getElem?_eq_some_iff.mp (hv s hs)).1, ?_⟩
+  intro j hj hcl
+  obtain ⟨kk, s', _, hs', h1, h2⟩ := hasg j hj
+  obtain ⟨k, hk⟩ := List.mem_iff_getElem?.mp hs
+  have := hinj k kk s s' hk hs' (by rw [h1, hcl])
+  subst this
+  rw [hk] at hs'
+  cases hs'
+  exact h2
+
+theorem mem_orderingOf {S : List Item} {k : Nat} {s : Item} :
+    (k, s) ∈ orderingOf S ↔ S[k]? = some s := by
+  unfold orderingOf
+  rw [mem_isortBy, mem_enumFrom]
+  simp
+
+theorem orderingOf_perm (S : List Item) : (orderingOf S).Perm (enumFrom 0 S) := isortBy_perm _ _
+
+theorem orderingOf_sorted (S : List Item) :
+    ((orderingOf S).map (·.2.1)).Pairwise (· ≤ ·) := by
+  rw [List.pairwise_map]
+  refine List.Pairwise.imp (fun h => of_decide_eq_true h) (isortBy_pairwise _ ?_ ?_ _)
+  · intro a b
+    rcases Nat.le_total a.2.1 b.2.1 with h | h
+    · left; exact decide_eq_true h
+    · right; exact decide_eq_true h
+  · intro a b c h1 h2
+    exact decide_eq_true (Nat.le_trans (of_decide_eq_true h1) (of_decide_eq_true h2))
+
+theorem mem_firsts {cl : Nat → Nat} {n i : Nat} :
+    i ∈ firsts cl n ↔ i < n ∧ ∀ j, j < i → cl j ≠ cl i := by
+  simp [firsts, List.mem_filter, List.all_eq_true]
+
+theorem firsts_sorted (cl : Nat → Nat) (n : Nat) : (firsts cl n).Pairwise (· < ·) :=
+  List.Pairwise.filter _ List.pairwise_lt_range
+
+theorem eq_of_strict_sorted {l1 l2 : List Nat} (h1 : l1.Pairwise (· < ·)) (h2 : l2.Pairwise (· < ·))
+    (h : ∀ a, a ∈ l1 ↔ a ∈ l2) : l1 = l2 := by
+  induction l1 generalizing l2 with
+  | nil =>
+    cases l2 with
+    | nil => rfl
+    | cons b l2 => exact absurd ((h b).mpr List.mem_cons_self) (by simp)
+  | cons a l1 ih =>
+    cases l2 with
+    | nil => exact absurd ((h a).mp List.mem_cons_self) (by simp)
+    | cons b l2 =>
+      rw [List.pairwise_cons] at h1 h2
+      have hab : a = b := by
+        rcases List.mem_cons.mp ((h a).mp List.mem_cons_self) with e | e
+        · exact e
+        · rcases List.mem_cons.mp ((h b).mpr List.mem_cons_self) with e' | e'
+          · exact e'.symm
+          · have := h1.1 b e'
+            have := h2.1 a e
+            omega
+      subst hab
+      congr 1
+      refine ih h1.2 h2.2 ?_
+      intro c
+      constructor
+      · intro hc
+        rcases List.mem_cons.mp ((h c).mp (List.mem_cons_of_mem _ hc)) with e | e
+        · have := h1.1 c hc; omega
+        · exact e
+      · intro hc
+        rcases List.mem_cons.mp ((h c).mpr (List.mem_cons_of_mem _ hc)) with e | e
+        · have := h2.1 c hc; omega
+        · exact e
+
+theorem slots_idx_nodup {cl : Nat → Nat} {S : List Item}
+    (hinj : ∀ (k k' : Nat) (s s' : Item), S[k]? = some s → S[k']? = some s' → cl s.1 = cl s'.1 → k = k') :
+    (S.map (·.1)).Nodup := by
+  rw [List.nodup_iff_pairwise_ne, List.pairwise_map, List.pairwise_iff_getElem]
+  intro i j hi hj hij heq
+  have := hinj i j S[i] S[j] (List.getElem?_eq_getElem hi) (List.getElem?_eq_getElem hj) (by rw [heq])
+  omega
+
+
+theorem enumFrom_map_idx (k : Nat) (S : List Item) : (enumFrom k S).map (·.2.1) = S.map (·.1) := by
+  induction S generalizing k with
+  | nil => rfl
+  | cons y l ih => simp [enumFrom, ih]
+
+theorem new2old_nodup {t : Rat} {pts : List Pt} {cl : Nat → Nat} (hsep : Separated t pts cl) :
+    ((orderingOf (chainState t pts).1).map (·.2.1)).Nodup := by
+  have hp := (orderingOf_perm (chainState t pts).1).map (·.2.1)
+  rw [hp.nodup_iff, enumFrom_map_idx]
+  exact slots_idx_nodup (chainState_core hsep).2.1
+
+theorem new2old_chain_eq_firsts {t : Rat} {pts : List Pt} {cl : Nat → Nat} (hsep : Separated t pts cl) :
+    (orderingOf (chainState t pts).1).map (·.2.1) = firsts cl pts.length := by
+  obtain ⟨hv, hinj, hasg⟩ := chainState_core hsep
+  refine eq_of_strict_sorted ?_ (firsts_sorted cl _) ?_
+  · have h1 := orderingOf_sorted (chainState t pts).1
+    have h2 := List.nodup_iff_pairwise_ne.mp (new2old_nodup hsep)
+    exact (h1.and h2).imp (fun h => Nat.lt_of_le_of_ne h.1 h.2)
+  · intro a
+    rw [mem_firsts]
+    constructor
+    · intro ha
+      obtain ⟨⟨k, s⟩, hks, rfl⟩ := List.mem_map.mp ha
+      have hsS : s ∈ (chainState t pts).1 := List.mem_of_getElem? (mem_orderingOf.mp hks)
+      obtain ⟨h1, h2⟩ := slot_is_first hsep hsS
+      refine ⟨h1, ?_⟩
+      intro j hj hcl
+      have hj' : j < s.1 := hj
+      have := h2 j (by omega) hcl
+      omega
+    · rintro ⟨han, hfirst⟩
+      obtain ⟨kk, s, _, hs, h1, h2⟩ := hasg a han
+      have : s.1 = a := by
+        rcases Nat.lt_or_eq_of_le h2 with h | h
+        · exact absurd h1 (hfirst s.1 h)
+        · exact h
+      exact List.mem_map.mpr ⟨(kk, s), mem_orderingOf.mpr hs, this⟩
+
+
+theorem lookup_slot {S : List Item} {kk : Nat} {s : Item} (hs : S[kk]? = some s) :
+    ((orderingOf S).map (·.2.1))[((orderingOf S).map (·.1)).idxOf kk]? = some s.1 := by
+  have hmem : kk ∈ (orderingOf S).map (·.1) :=
+    List.mem_map.mpr ⟨(kk, s), mem_orderingOf.mpr hs, rfl⟩
+  have hr : ((orderingOf S).map (·.1)).idxOf kk < ((orderingOf S).map (·.1)).length :=
+    List.idxOf_lt_length_of_mem hmem
+  have hget := List.getElem_idxOf hr
+  generalize ((orderingOf S).map (·.1)).idxOf kk = r at hr hget
+  have hr' : r < (orderingOf S).length := by simpa using hr
+  rw [List.getElem_map] at hget
+  have hin : (orderingOf S)[r] ∈ orderingOf S := List.getElem_mem hr'
+  have hpair : (orderingOf S)[r] = (kk, ((orderingOf S)[r]).2) := by
+    rw [← hget]
+  rw [hpair] at hin
+  have := mem_orderingOf.mp hin
+  rw [hs] at this
+  have hs2 : ((orderingOf S)[r]).2 = s := (Option.some.inj this).symm
+  rw [List.getElem?_map, List.getElem?_eq_getElem hr']
+  simp [hs2]
+
 end PorepyVerif.C34
